@@ -216,6 +216,13 @@ func genNestedJobLevel(t *rapid.T) *mrogen.Program {
 // once) for map calls inside map-called pipelines, ragged sizes included.
 func TestNestedMapsJobs(t *testing.T) {
 	root := workRoot(t)
+	// (run once for each of C01, C02, C03: whatever goes wrong in these
+	// families - a job too many shows first as unexpected arguments - is
+	// reported by the check that is running)
+	if p := os.Getenv("VERIF_STATS_PROP"); p != "" {
+		propOverride = p
+		defer func() { propOverride = "" }()
+	}
 	rapid.Check(t, func(t *rapid.T) {
 		defer func() {
 			if p := recover(); p != nil {
@@ -309,5 +316,85 @@ func TestC07AcceptNested(t *testing.T) {
 		stats.Case("C07", elem == "string", stats.Digest("nested", src), []string{"accept-nested", "nested-elem:" + elem}, func() any {
 			return map[string]any{"kind": "accept-nested", "program": stats.Trunc(src, 700)}
 		})
+	})
+}
+
+// genFlagged: a pipeline map-called over an array literal of run-time
+// collections, with its disabling flag given per element - literal false /
+// true and references to stage outputs mixed in one literal:
+//
+//	map call PER(xs = split [MAKE.a, MAKE.b, MAKE.a], off = split [false, MAKE.f1, true])
+//
+// inside PER a map call of LEAF over self.xs is disabled by self.off, a call
+// of ALWAYS is not.
+func genFlagged(t *rapid.T) *mrogen.Program {
+	p := &mrogen.Program{U: &mrogen.Universe{Structs: []*mrogen.Struct{{Name: "S0", Fields: []mrogen.Field{{Name: "f", T: tInt}}}}}}
+	mk := st("MAKE", []mrogen.Param{pm("n", tInt)}, []mrogen.Param{pm("a", tIntArr), pm("b", tIntArr), pm("f1", tBool), pm("f2", tBool)})
+	lf := st("LEAF", []mrogen.Param{pm("x", tInt)}, []mrogen.Param{pm("y", tInt)})
+	al := st("ALWAYS", []mrogen.Param{pm("xs", tIntArr)}, []mrogen.Param{pm("s", tInt)})
+	p.Stages = []*mrogen.Stage{mk, lf, al}
+	off := mrogen.Ref{Out: "off"}
+	leafMapped := rapid.Bool().Draw(t, "leafMapped")
+	perPl := &mrogen.Pipeline{Name: "PER", Ins: []mrogen.Param{{Name: "xs", T: tIntArr, SplitSrc: true}, {Name: "off", T: tBool, Flag: true}},
+		Outs: []mrogen.Param{pm("s", tInt)}}
+	if leafMapped {
+		perPl.Calls = append(perPl.Calls, &mrogen.Call{Id: "LEAF", Callee: "LEAF", Mapped: true, Disabled: &off,
+			Bindings: []mrogen.Binding{{Param: "x", E: mrogen.Split{E: self("xs")}}}})
+	} else {
+		// a plain call: the disabled stage takes the whole list
+		lf.Ins = []mrogen.Param{pm("x", tIntArr)}
+		perPl.Calls = append(perPl.Calls, &mrogen.Call{Id: "LEAF", Callee: "LEAF", Disabled: &off,
+			Bindings: []mrogen.Binding{{Param: "x", E: self("xs")}}})
+	}
+	perPl.Calls = append(perPl.Calls, &mrogen.Call{Id: "ALWAYS", Callee: "ALWAYS", Bindings: []mrogen.Binding{{Param: "xs", E: self("xs")}}})
+	perPl.Ret = []mrogen.Binding{{Param: "s", E: out("ALWAYS", "s")}}
+	n := rapid.IntRange(2, 4).Draw(t, "outerLen")
+	var xs, flags mrogen.ArrayLit
+	for i := 0; i < n; i++ {
+		xs.Elems = append(xs.Elems, out("MAKE", rapid.SampledFrom([]string{"a", "b"}).Draw(t, "list")))
+		switch rapid.IntRange(0, 4).Draw(t, "flagKind") {
+		case 0:
+			flags.Elems = append(flags.Elems, lit(true, tBool))
+		case 1, 2:
+			flags.Elems = append(flags.Elems, lit(false, tBool))
+		default:
+			flags.Elems = append(flags.Elems, out("MAKE", rapid.SampledFrom([]string{"f1", "f2"}).Draw(t, "flagRef")))
+		}
+	}
+	top := &mrogen.Pipeline{Name: "TOP", Ins: []mrogen.Param{pm("n", tInt)}, Outs: []mrogen.Param{pm("r", tIntArr)},
+		Calls: []*mrogen.Call{
+			{Id: "MAKE", Callee: "MAKE", Bindings: []mrogen.Binding{{Param: "n", E: self("n")}}},
+			{Id: "PER", Callee: "PER", Mapped: true, Bindings: []mrogen.Binding{{Param: "xs", E: mrogen.Split{E: xs}}, {Param: "off", E: mrogen.Split{E: flags}}}}},
+		Ret: []mrogen.Binding{{Param: "r", E: out("PER", "s")}}}
+	p.Pipelines = []*mrogen.Pipeline{perPl, top}
+	p.Top = &mrogen.Call{Id: "TOP", Callee: "TOP", Bindings: []mrogen.Binding{{Param: "n", E: lit(num(rapid.IntRange(0, 9999).Draw(t, "n")), tInt)}}}
+	return p
+}
+
+// TestFlaggedMapsJobs: C03 (and C01 / C02) for per-element disabling flags of
+// a map-called pipeline; job-level oracles as in TestNestedMapsJobs.
+func TestFlaggedMapsJobs(t *testing.T) {
+	root := workRoot(t)
+	// (run once for each of C01, C02, C03: whatever goes wrong in these
+	// families - a job too many shows first as unexpected arguments - is
+	// reported by the check that is running)
+	if p := os.Getenv("VERIF_STATS_PROP"); p != "" {
+		propOverride = p
+		defer func() { propOverride = "" }()
+	}
+	rapid.Check(t, func(t *rapid.T) {
+		defer func() {
+			if p := recover(); p != nil {
+				if _, ok := p.(surveySkip); !ok {
+					panic(p)
+				}
+			}
+		}()
+		prog := genFlagged(t)
+		if stats.Known("C01/nested-map-merge-repeats-forks") {
+			skipTopOuts = true
+			defer func() { skipTopOuts = false }()
+		}
+		semCase(t, root, prog)
 	})
 }
